@@ -331,7 +331,7 @@ func main() {
 			var sc rh.TransitScript
 			var obs []rh.AObs
 			var ended []rh.Tunnel
-			p := vh.Recover(func() { sc, obs, ended = rh.GenTransitHistory(r, 8+r.Intn(24), run) })
+			p := vh.Recover(func() { sc, obs, ended = rh.GenTransitHistory(r, 8+r.Intn(24), run, i%2 == 1) })
 			run.Close()
 			rp := Replay{Kind: "transit", Name: fmt.Sprintf("transit-%d", i), Transit: &sc}
 			if p != "" {
